@@ -139,7 +139,7 @@ def is_phi(e, name=None):
 
 
 class Walker:
-    def __init__(self, resolver=None, max_paths=4096, inline_depth=0, fold=None):
+    def __init__(self, resolver=None, max_paths=4096, inline_depth=0, fold=None, tag=None):
         self.resolver = resolver        # (call_expr, self_class) -> (FunctionDef, bound self expr, owner) | None
         self.max_paths = max_paths
         self.inline_depth = inline_depth
@@ -147,6 +147,9 @@ class Walker:
         self._phi = itertools.count()
         self.cls = None
         self.items = {}                 # loop number -> iterable expression
+        self.tag = tag                  # call expr -> short label: result becomes a unique symbol
+        self.calltab = {}               # symbol id -> tagged call expression
+        self._tagn = itertools.count(1)
 
     # ------------------------------------------------------------------ API
     def paths(self, func, bind=None, cls=None, depth=0):
@@ -364,6 +367,9 @@ class Walker:
         """True/False when the test is decided on this path, else None"""
         if isinstance(t, ast.Constant):
             return bool(t.value)
+        c = const_truth(t)
+        if c is not None:
+            return c
         f = self.fold(t)
         if f is not None:
             return f
@@ -389,6 +395,10 @@ class Walker:
         out = []
         body_out = self.block(s.body, st, d)
         assigned = _assigned_names(s.body)
+        if len(s.body) == 1 and isinstance(s.body[0], (ast.Assign, ast.AugAssign, ast.AnnAssign, ast.Expr, ast.Return)):
+            # a single simple statement: the exception is raised while its right-hand
+            # side is evaluated, i.e. before the assignment happens
+            assigned = set()
         for p, status in body_out:
             if status is None and s.orelse:
                 out.extend(self.block(s.orelse, p, d))
@@ -543,6 +553,35 @@ class Walker:
         if a.kwarg is not None:
             env[a.kwarg.arg] = extra_kw[0] if len(extra_kw) == 1 else ast.Name(id='<kwargs>', ctx=ast.Load())
         return env
+
+
+def const_truth(t):
+    """truth value of a test built from constants with not / and / or (None when unknown)"""
+    if isinstance(t, ast.Constant):
+        return bool(t.value)
+    if isinstance(t, ast.UnaryOp) and isinstance(t.op, ast.Not):
+        v = const_truth(t.operand)
+        return None if v is None else not v
+    if isinstance(t, ast.BoolOp):
+        vals = [const_truth(v) for v in t.values]
+        if isinstance(t.op, ast.Or):
+            # left to right: a true operand decides when everything before it is false
+            for v in vals:
+                if v is True:
+                    return True
+                if v is None:
+                    return None
+            return False
+        for v in vals:
+            if v is False:
+                return False
+            if v is None:
+                return None
+        return True
+    if isinstance(t, (ast.List, ast.Tuple, ast.Dict, ast.Set)):
+        n = len(t.elts) if not isinstance(t, ast.Dict) else len(t.keys)
+        return n > 0
+    return None
 
 
 def _load(t):
@@ -732,9 +771,17 @@ class _Ev:
                         self.st.heap.clear()
                         status = res[0][1]
                         return status[1] if status is not None and status[1] is not None else ast.Constant(value=None)
-        self.st.effects.append(Eff('call', e, call=new, cond=cond or in_binder, depth=self.d))
+        eff = Eff('call', e, call=new, cond=cond or in_binder, depth=self.d)
+        self.st.effects.append(eff)
         if not self.is_pure(func):
             self.st.heap.clear()
+        if self.w.tag is not None:
+            label = self.w.tag(new)
+            if label:
+                sym = ast.Name(id='<#%d %s>' % (next(self.w._tagn), label), ctx=ast.Load())
+                self.w.calltab[sym.id] = new
+                eff.value = sym
+                return sym
         return new
 
     def is_pure(self, func):
